@@ -1886,6 +1886,16 @@ def run(tier):
               'memoised)',
               'a filter does not deliver its verdict in time bounded by a small function of the input size')
     chk.guard(rule_r15, chk, prog)
+    # a single test is bounded by the time limit (shared with C10.R1)
+    from . import c10 as _c10
+    sub10 = Check('C10', 'other', tier, [], [])
+    chk.guard(_c10.rule_r1_r2_r3, sub10, prog)
+    Check.restrict(sub10, lambda wh, what: 'execute' in str(wh) and any(
+        k in str(what) for k in ('wait', 'communicate', 'kill', 'timeout')))
+    chk.adopt('C03.R16', 'every wait for the command is bounded by the time '
+              'limit (after the kill nothing blocks on the pipes of a '
+              'surviving grandchild): each of the finitely many tests ends '
+              '(shared with C10.R1)', sub10)
     extra = None
     if tier == 'thorough':
         from .. import selftest
